@@ -4,6 +4,7 @@
 
 pub mod instance;
 pub mod names;
+pub mod rust;
 pub mod schema;
 
 use proptest::prelude::*;
